@@ -210,6 +210,20 @@ impl Context {
         ret
     }
 
+    /// Like `with_condition_domain` for a branch of an if / switch chain, which
+    /// is gated by every earlier condition of the chain as well as its own.
+    pub fn with_condition_domains<T>(
+        &mut self,
+        conds: &[Comptime],
+        f: impl FnOnce(&mut Self) -> T,
+    ) -> T {
+        let len = self.condition_domains.len();
+        self.condition_domains.extend_from_slice(conds);
+        let ret = f(self);
+        self.condition_domains.truncate(len);
+        ret
+    }
+
     pub fn inherit(&mut self, tgt: &mut Context) {
         std::mem::swap(&mut self.overrides, &mut tgt.overrides);
         std::mem::swap(&mut self.generic_maps, &mut tgt.generic_maps);
